@@ -70,6 +70,9 @@ func (s *SelectPlan) ExecuteIn(reqCtx *util.RequestContext, sess Executor) (*mys
 		r := newEmptyResultset(s, s.GetStmt())
 		ret := mysql.ResultPool.Get()
 		ret.Resultset = r
+		if err := addEmptyAggregateRow(s, ret); err != nil {
+			return nil, err
+		}
 		return ret, nil
 	}
 
@@ -88,6 +91,25 @@ func (s *SelectPlan) ExecuteIn(reqCtx *util.RequestContext, sess Executor) (*mys
 	}
 	return r, nil
 
+}
+
+// addEmptyAggregateRow: aggregate functions without GROUP BY yield one row even
+// when no sub table can hold a matching row: COUNT is 0, the others are NULL.
+func addEmptyAggregateRow(s *SelectPlan, ret *mysql.Result) error {
+	if s.stmt.GroupBy != nil || len(s.aggregateFuncs) == 0 {
+		return nil
+	}
+	row := make([]interface{}, len(ret.Fields))
+	for idx, merger := range s.aggregateFuncs {
+		if _, isCount := merger.(*AggregateFuncCountMerger); isCount && idx < len(row) {
+			row[idx] = int64(0)
+		}
+	}
+	ret.Values = append(ret.Values, row)
+	if err := limitSelectResult(s, ret); err != nil {
+		return err
+	}
+	return GenerateSelectResultRowData(ret)
 }
 
 // GetStmt SelectStmt
